@@ -264,6 +264,22 @@ def compress (ae : Option AE) (h : Head) (ct : Option (String × String)) (b : R
     let r := response enc h b.size
     { head := r.1, mode := r.2, size := encSize r.2 b.size, evs := encBodyEvs r.2 b }
 
+/-! ### handler side: how a length gets declared (`actix-web/src/response/builder.rs`) -/
+
+/-- `HttpResponseBuilder::no_chunking(len)` (:192): `Content-Length: len` + `Flags::NO_CHUNKING` -/
+def builderNoChunking (h : Head) (len : Nat) : Head :=
+  { h with headers := hInsert h.headers "content-length" (toString len), noChunking := true }
+
+/-- `HttpResponseBuilder::streaming` (:326): default content type; a numeric `Content-Length`
+already in the head ⇒ `no_chunking(len)` and a `SizedStream(len)`, else a `BodyStream` -/
+def builderStreaming (h : Head) : Head × BodySize :=
+  let h1 : Head :=
+    if hContains h.headers "content-type" then h
+    else { h with headers := hInsert h.headers "content-type" "application/octet-stream" }
+  match (hGetAll h1.headers "content-length").head?.bind String.toNat? with
+  | some len => (builderNoChunking h1 len, .sized len)
+  | none => (h1, .stream)
+
 /-- How `h1::encoder::MessageType::encode_headers` (actix-http/src/h1/encoder.rs:54) frames a
 response whose status is not 1xx / 204 / 304: (`transfer-encoding: chunked`?, the `Content-Length`
 value sent).  `hcl` is a `Content-Length` header set by the handler: it is copied only for a
